@@ -9,6 +9,9 @@ structure MSched where
   seenWrites : Nat := 0
   decBuf : Bytes := []
   coalesce : Bool := false
+  /-- the transport stalled (a write that neither completes nor fails): outside the model, the rest of the case is
+      judged by the harness's oracles only -/
+  stalled : Bool := false
   deriving Inhabited
 
 def pcName : PC → String
@@ -79,6 +82,7 @@ def schedOp (st : Option MSched) (toks : List String) : Option MSched × String 
     match st with
     | none => (none, "nonode")
     | some m =>
+      if m.stalled then (st, "skip") else
       match toks with
       | ["task", prog] =>
         let t := m.cs.n
@@ -100,6 +104,7 @@ def schedOp (st : Option MSched) (toks : List String) : Option MSched × String 
             | some cs' => let (m, o) := ({ m with cs := cs' } : MSched).obs; (some m, s!"t={t} " ++ o)
             | none => (st, "stuck")
         | none => (st, "bad-op")
+      | ["stall"] => (some { m with stalled := true }, "ok")
       | [ev] =>
         if ev == "eof" || ev == "rderr" || ev == "alert" then
           -- the receive loop reacts by calling close(): an uncontrolled task
